@@ -48,8 +48,13 @@ class WallClockHang(BaseException):
 CASE_WALL_LIMIT = float(os.environ.get("ADVF_CASE_WALL_LIMIT", "90"))
 
 
+_ARMED = [False]
+
+
 def _alarm(signum, frame):
-    raise WallClockHang()
+    # the timer repeats every second once the limit has passed: code under test may catch the first exception in a `finally:` that blocks again
+    if _ARMED[0]:
+        raise WallClockHang()
 
 
 def threading_main():
@@ -70,9 +75,13 @@ def guarded(case_fn):
         main = threading_main()
         if main:
             old = signal.signal(signal.SIGALRM, _alarm)
-            signal.setitimer(signal.ITIMER_REAL, CASE_WALL_LIMIT)
+            _ARMED[0] = True
+            signal.setitimer(signal.ITIMER_REAL, CASE_WALL_LIMIT, 1.0)
         try:
-            return case_fn(case)
+            try:
+                return case_fn(case)
+            finally:
+                _ARMED[0] = False
         except WallClockHang:
             state["hung"] += 1
             return Violation("operation-hung", "the case did not finish within %.0f s of wall-clock time (deadlock or endless blocking call)" % CASE_WALL_LIMIT), {"classes": ["hung"]}
